@@ -8,8 +8,8 @@ OPT = "core::option::Option"
 DR = "dynamic_roots::DynamicRoot"
 
 
-def run(chk, tier):
-    prog, T = typestate.engine("default")
+def run_config(chk, tier, cfgname):
+    prog, T = typestate.engine(cfgname)
     chk.explain("C14: (tracing) the Collect chain DynamicRootSet -> Inner -> Slots -> Vec<Slot> -> Slot traces every "
                 "pointer-bearing field (coverage rule of C16 on these impls; Slot::Occupied.root is reported strong); "
                 "(stash) the C06 adoption table for stash, and the issued handle carries the stashed pointer and the "
@@ -28,14 +28,14 @@ def run(chk, tier):
     for im in prog.impls:
         if im.get("trait") == "collect::Collect" and im["self_s"].startswith("dynamic_roots::"):
             n += 1
-            c16.check_impl(chk, prog, im, "default")
+            c16.check_impl(chk, prog, im, cfgname)
     chk.floor("dynamic-root-collect-impls", n, 4)
     slot_strong(chk, prog)
     typestate.apply(chk, "stash-adoption", "adopt", only=lambda r: r.pre["path"] == "DynamicRootSet::stash")
     slots.run_tables(chk, prog)
     pairing(chk, prog)
     fetch_rules(chk, prog)
-    c12.rebrand(chk, prog, "default")
+    c12.rebrand(chk, prog, cfgname)
 
 
 def slot_strong(chk, prog):
@@ -125,7 +125,7 @@ def pairing(chk, prog):
     # stash: handle carries the stashed pointer and add's index
     fn = "dynamic_roots::DynamicRootSet::stash"
     if chk.anchor(fn, fn in prog.seed_n):
-        m = typestate.engine("default")[1].m
+        m = typestate.engine(chk.cfg or "default")[1].m
 
         def add(ip, st, args, info):
             st.event("add", args[1])
@@ -209,3 +209,17 @@ def fetch_rules(chk, prog):
                     if fn.endswith("try_fetch") and not (o.kind == "return" and o.value[0] == "adt" and o.value[2] == 1):
                         probs.append("try_fetch does not return Err for a foreign handle")
             chk.inst("fetch-contract", "%s(contains=%s)" % (fn.split("::")[-1], bool(ans)), not probs, detail="; ".join(sorted(set(probs))[:2]))
+
+
+def run(chk, tier):
+    cfgs = typestate.configs(tier)
+    chk.extra["feature_configs"] = cfgs
+    for c in cfgs:
+        chk.cfg = c
+        n_expl = len(chk.explanation)
+        nd = len(chk.not_decided)
+        run_config(chk, tier, c)
+        if c != cfgs[0]:
+            del chk.explanation[n_expl:]
+            del chk.not_decided[nd:]
+    chk.cfg = None
